@@ -21,22 +21,27 @@ Lemma optional_views :
   global_ty = TStruct (fields_of global_ty) /\ path_ty = TStruct (fields_of path_ty).
 Proof. vm_compute. repeat split. Qed.
 
-Section Instance.
-  Variable net6 : Type.
-  Variable net6_print : net6 -> list Z.
-  Variable net6_parse : list Z -> option net6.
-  Variable cred_valid : list Z -> bool.
-  Variable track : Type.
-  Variable track_enc : track -> json.
-  Variable track_dec : json -> option track.
-  Hypothesis net6_ok : forall x, ipnet_unmarshal (net6_print x) = NV6 /\ net6_parse (net6_print x) = Some x.
-  Hypothesis track_ok : forall x, track_dec (track_enc x) = Some x /\ track_enc x <> JNull.
+(* the struct reflected from conf.AlwaysAvailableTrack is the one the CTrack codec model encodes/decodes *)
+Lemma track_schema : track_ty = track_ty_model.
+Proof. vm_compute. reflexivity. Qed.
 
-  Notation cval := (cval net6 track).
-  Notation cenc := (cenc net6 net6_print track track_enc).
-  Notation cdec := (cdec net6 net6_parse cred_valid track track_dec).
-  Notation cwf := (cwf net6 cred_valid track).
-  Notation czero := (czero net6 track).
+(* no map type occurs in the configuration: the restriction of the map model (distinct keys in key order,
+   [no_dup_keys] in [wf]) is vacuous for the four schemas *)
+Lemma schemas_no_map :
+  has_map codec global_ty = false /\ has_map codec path_ty = false /\
+  has_map codec opt_global_ty = false /\ has_map codec opt_path_ty = false.
+Proof. vm_compute. repeat split. Qed.
+
+(* ... and where a map does occur the generic theorem needs distinct keys: the hypothesis, spelled out *)
+Lemma wf_map_no_dup_keys (codec cval : Type) (cwf : codec -> cval -> Prop) t m :
+  wf codec cval cwf (TMap t) (VMap m) -> no_dup_keys cval m.
+Proof. cbn. tauto. Qed.
+
+Section Instance.
+  Variable cred_valid : list Z -> bool.
+
+  Notation cdec := (cdec cred_valid).
+  Notation cwf := (cwf cred_valid).
 
   Theorem conf_roundtrip t : In t [global_ty; path_ty; opt_global_ty; opt_path_ty] ->
     forall v, wf codec cval cwf t v -> dec codec cval cdec czero t (enc codec cval cenc t v) = Some v.
@@ -44,7 +49,7 @@ Section Instance.
     intros Hin. destruct schemas_ok as (H1 & H2 & H3 & H4).
     assert (Hs : schema_ok t = true) by (simpl in Hin; intuition (subst; assumption)).
     unfold schema_ok in Hs. apply andb_true_iff in Hs as [Hok Hk].
-    apply (conf_schema_roundtrip net6 net6_print net6_parse cred_valid track track_enc track_dec net6_ok track_ok t Hok Hk).
+    apply (conf_schema_roundtrip cred_valid t Hok Hk).
   Qed.
 
   (* GET (encode the struct) then PATCH (decode into the optional view, copy the non-nil fields): no-op *)
@@ -58,12 +63,10 @@ Section Instance.
     simpl in Hin. destruct Hin as [Hin|[Hin|[]]]; inversion Hin; subst t t'.
     - unfold schema_ok in H1. apply andb_true_iff in H1 as [Hok Hk].
       rewrite V1. rewrite S1 in *.
-      apply (conf_optional_roundtrip net6 net6_print net6_parse cred_valid track track_enc track_dec net6_ok track_ok
-               (fields_of global_ty) vs Hok Hk Hw).
+      apply (conf_optional_roundtrip cred_valid (fields_of global_ty) vs Hok Hk Hw).
     - unfold schema_ok in H2. apply andb_true_iff in H2 as [Hok Hk].
       rewrite V2. rewrite S2 in *.
-      apply (conf_optional_roundtrip net6 net6_print net6_parse cred_valid track track_enc track_dec net6_ok track_ok
-               (fields_of path_ty) vs Hok Hk Hw).
+      apply (conf_optional_roundtrip cred_valid (fields_of path_ty) vs Hok Hk Hw).
   Qed.
 End Instance.
 
